@@ -147,6 +147,9 @@ def enumerate_cases(tier):
     for mag in ({"t": "int", "v": 3}, {"t": "pow10", "v": 400}, {"t": "pow10", "v": 4300}, {"t": "pow10", "v": -6000}, {"t": "float", "v": 1e300}, {"t": "dec", "v": "1E+5000"}):
         for compound in (False, True):
             out.append({"g": "unlinked", "mag": mag, "mag2": {"t": "int", "v": 2}, "compound": compound})
+    for mag in ({"t": "int", "v": 3}, {"t": "float", "v": 2.5}, {"t": "dec", "v": "-40.5"}):
+        for compound in (False, True):
+            out.append({"g": "unlinked", "mag": mag, "mag2": {"t": "int", "v": 2}, "compound": compound, "mixed": True})
     out += [{"g": "chain", "n": n} for n in ((30, 200, 700) if tier == "quick" else (30, 200, 399, 400, 700, 880, 1200))]
     return out
 
@@ -157,6 +160,9 @@ ALLOWED = {
     "sub": {"ConversionNotFound"},
     "eq": set(),
     "lt": {"TypeError"},
+    "le": {"TypeError"},
+    "gt": {"TypeError"},
+    "ne": set(),
     "sorted": {"TypeError"},
 }
 
@@ -171,12 +177,15 @@ def judge(out, rec, gen):
             nontrivial = True
             out.classes.append("not-linked-by-declarations")
         for op, r in pair["ops"].items():
+            kind = op.split(":")[0]
             if r[0] == "exc":
                 out.classes.append(f"{op}:{r[1]}")
-                if r[1] not in ALLOWED[op]:
+                if r[1] not in ALLOWED[kind]:
                     out.fail(f"C07:escape:{r[1]}@{r[2]}:{where}", f"{op} on {pair['label']} raised {r[1]} at {r[2]} [{shape}]")
-            elif op == "eq" and r[0] != "b":
-                out.fail(f"C07:eq-not-bool:{where}", f"== on {pair['label']} returned {r}")
+            elif kind in ("eq", "ne") and r[0] != "b":
+                out.fail(f"C07:eq-not-bool:{where}", f"{op} on {pair['label']} returned {r}")
+            elif kind in ("eq", "ne") and shape == "unlinked" and r[1] != (kind == "ne"):
+                out.fail(f"C07:impossible-pair-compares-equal:{where}", f"{op} on {pair['label']} returned {r[1]} although no conversion connects the units")
     return nontrivial
 
 
